@@ -42,7 +42,7 @@ ASSUMPTIONS = [
     "MoveMemrefDims: the size resolution is modelled (move_dim_value); its IR surgery is covered by L2 only",
 ]
 
-BASE = 100000  # canonical renumbering starts here (above every free name)
+BASE = 3000  # canonical renumbering starts here (above every free name)
 
 
 class Unsupported(Exception):
@@ -71,7 +71,7 @@ class Names:
 
 
 def nat(n):
-    return f"{n}%nat"
+    return f"{n}"  # the cases files open nat_scope; every Z literal carries %Z
 
 
 def _lin(expr_map, idx, noperands):
@@ -598,7 +598,7 @@ def loops_of(fn):
     return out
 
 
-HEADER = "From Snax Require Import Base.Prelude Model.C17Loop.\n"
+HEADER = "From Snax Require Import Base.Prelude Model.C17Loop.\nLocal Open Scope nat_scope.\n"
 L1_TEST = ("fun c : list var * list op * rule * list nat * list op => match c with (args, b, r, p, a) => "
            "wf_prog args b && match rewrite r p b with Some b' => block_eqb (canon %d%%nat b') (canon %d%%nat a) | None => false end end" % (BASE, BASE))
 FIX_TEST = ("fun c : list op * rule * list nat => match c with (b, r, p) => "
